@@ -16,7 +16,7 @@ NATIVE_TIMEOUT = 5.0
 BOUNDS = {
     'quick': 'all histories of 1-3 successful unifications whose operands are drawn from {$V1,$V2,$V3, a, symbolic int, f($V1), f($V2), [$V1], [a | $V2], []} '
              '(both operand orders, each step through the real unify, occurs-check histories dropped by the reference); after every step: chain walk, '
-             'get_ground_term / is_ground_variable / replace_variables on every variable under a 60k-statement step limit, and re-unification of every aliased pair in both orders',
+             'get_ground_term / is_ground_variable / replace_variables on every variable under a 60k-statement step limit, and re-unification of every aliased pair in both orders; the 3-step alias histories are repeated with variable ids 64 and 128 apart (3/67/70, 1/65/129, 6/70/134)',
     'thorough': 'histories of up to 4 steps over the same operand set plus $V4, f($V3), [$V3 | $V1]',
 }
 OUTSIDE = 'histories in which the reference unifier needs an occurs check; function terms'
@@ -50,6 +50,13 @@ def cases(tier, seed):
     for s1 in vv:
         for s2 in v1:
             for s3 in (v1 if tier == 'quick' else varsteps): add([s1, s2, s3])
+    # the same alias histories with variable ids far apart (64 and 128 apart, beyond one machine word of any id bit set)
+    for idmap in ([3, 67, 70], [1, 65, 129], [6, 70, 134]):
+        for s1 in vv:
+            for s2 in vv:
+                for s3 in vv:
+                    out.append({'id': 'ids %s: ' % idmap + ' ; '.join('%s=%s' % (U.text(a), U.text(b)) for a, b in (s1, s2, s3)) + '|%d' % len(out),
+                                'hist': [list(x) for x in (s1, s2, s3)], 'idmap': idmap})
     if tier != 'quick':
         for s1 in vv:
             for s2 in vv:
@@ -94,8 +101,13 @@ def run(drv, case):
     ss, sub, vars_seen = drv.ss0(), {}, {}
     tags = set()
     done = []
+    idmap = case.get('idmap')
+    def remap(t):
+        if idmap is None or not isinstance(t, tuple): return t
+        if t and t[0] == 'var' and isinstance(t[1], int) and 1 <= t[1] <= len(idmap): return ('var', idmap[t[1] - 1], t[2])
+        return tuple(remap(x) for x in t)
     for n, (A, B) in enumerate(case['hist']):
-        a = U.inst(m, A, 'a%d' % n); b = U.inst(m, B, 'b%d' % n)
+        a = remap(U.inst(m, A, 'a%d' % n)); b = remap(U.inst(m, B, 'b%d' % n))
         aa, ab = UC.build_pterm(a), UC.build_pterm(b)
         R.vars_of(aa, vars_seen); R.vars_of(ab, vars_seen)
         try:
